@@ -191,7 +191,9 @@ def attach_path(block, path):
 def decode(block, encoding, errors, line_delimiter):
     # blocksize is not None branch
     text = block.decode(encoding, errors)
-    if line_delimiter in [None, "", "\n", "\r", "\r\n"]:
+    if line_delimiter in [None, "", "\n"]:
+        # "\r" and "\r\n" must not go through StringIO: as the ``newline`` of a
+        # StringIO they translate every "\n" of the initial value on write
         lines = io.StringIO(text, newline=line_delimiter)
         return list(lines)
     else:
